@@ -265,13 +265,16 @@ fn exec_variants(t: &mut Tape, st: &mut Stats) -> Result<(), String> {
     }
     // second hop: the method is whatever the first hop produced
     let m1 = want1.unwrap();
+    // a despite-method request repeated by a 307/308: the caller states the wish again on the followed flow (whether it is
+    // remembered is not stated), so a body is due either way
+    let carried_despite = despite && !takes_body && matches!(status1, 307 | 308);
     let spec2 = ExchangeSpec {
         method: m1.clone(),
         req_v10,
         uri: String::new(),
         req_conn: ReqConn::Absent,
         expect: false,
-        despite: false,
+        despite: carried_despite,
         req_framing: ReqFraming::Auto,
         extra_headers: vec![],
         body: vec![],
